@@ -21,7 +21,7 @@ Here is a semantic property of s2n-quic that is supposed to hold (JSON record):
  3. the property above is genuinely BROKEN by the change, but only under some specific circumstance (a particular input, configuration, loss/reordering pattern, timing, schedule or peer behaviour) - not on every connection, otherwise the existing tests would notice,
  4. the change is not guarded by cfg flags, environment variables or magic constants that only you know; it must look like ordinary code.
 
-Then DEMONSTRATE the breakage: write a small self-contained demonstration (preferably a new Rust test placed in a new file or appended test module inside the worktree, or a unit-level driver) that FAILS/shows the violation with your change applied and PASSES/shows no violation on the original code (verify both, using `git stash` or `git diff > patch; git checkout` as you like). The demonstration is separate from the change.
+Then DEMONSTRATE the breakage: write a small self-contained demonstration (preferably a new Rust test placed in a new file or appended test module inside the worktree, or a unit-level driver) that FAILS/shows the violation with your change applied and PASSES/shows no violation on the original code (verify both, using `git diff > patch; git checkout -- .; ...; git apply patch` - do NOT use `git stash`: the stash is shared between all worktrees of the repository and other people work in sibling worktrees). The demonstration is separate from the change.
 
 DELIVERABLES in {out}/ (create the directory):
  - patch.diff : `git diff` of ONLY the bug (source change), applicable with `git apply` on the original commit. It must not contain the demonstration.
